@@ -1,3 +1,263 @@
-import Mkdb.Model.Session
+import Mkdb.Proofs.Session
+/-!
+# C17 — databases are isolated and survive any USE pattern
+
+Property theorems only, about the session model `Mkdb.Session.exec` (engine/session.go
+`Session.ExecQuery` over storage.CreateDB / OpenRelation / Close).  Quantifier: every session state
+(any number of databases with any contents, any selection) and every statement; the history
+statements follow by induction over the statement list.  What the model cannot exhibit - the
+flush timer of a relation service that was never closed, file handles, the clock - is exercised
+by the harness with the real timer (partial by nature for the schedule quantifier).
+-/
 namespace Mkdb.Session
+open Mkdb.Engine Mkdb.Store Mkdb.Sql
+
+/-- statements that are routed to the selected database -/
+def routed : Stmt → Bool
+  | .createDatabase _ | .use _ => false
+  | _ => true
+
+/-- **C17.frame**: a DDL/DML/SELECT/SHOW statement changes at most the selected database: the
+selection, the set of databases and every other database's pages and log are exactly what they
+were - whatever the statement does, succeeds or fails. -/
+theorem C17_frame (s : Sess) (st : Stmt) (h : routed st = true) :
+    (exec s st).1.cur = s.cur ∧ names (exec s st).1 = names s ∧
+    ∀ m, s.cur ≠ some m → getDB (exec s st).1 m = getDB s m := by
+  cases st with
+  | createDatabase n => simp [routed] at h
+  | use n => simp [routed] at h
+  | showDatabases => exact ⟨rfl, rfl, fun _ _ => rfl⟩
+  | createTable name cols => exact onCurrent_frame s _
+  | insert t cols rows => exact onCurrent_frame s _
+  | update t sets w => exact onCurrent_frame s _
+  | delete t w => exact onCurrent_frame s _
+  | select q =>
+    simp only [exec]
+    split <;> exact ⟨rfl, rfl, fun _ _ => rfl⟩
+
+/-- **C17.no_database_selected**: without a selected database every routed statement other than
+SHOW DATABASES is an error that changes nothing. -/
+theorem C17_no_database_selected (s : Sess) (st : Stmt) (h : routed st = true) (hs : st ≠ .showDatabases)
+    (hc : s.cur = none) : exec s st = (s, .err "noDbSelected") := by
+  cases st with
+  | createDatabase n => simp [routed] at h
+  | use n => simp [routed] at h
+  | showDatabases => exact absurd rfl hs
+  | createTable name cols => simp [exec, onCurrent, hc]
+  | insert t cols rows => simp [exec, onCurrent, hc]
+  | update t sets w => simp [exec, onCurrent, hc]
+  | delete t w => simp [exec, onCurrent, hc]
+  | select q => simp [exec, hc]
+
+/-- **C17.create_existing**: creating a database that exists (names compared in lower case) is an error
+that changes nothing. -/
+theorem C17_create_existing (s : Sess) (name : Bytes) (h : (getDB s (canon name)).isSome = true) :
+    exec s (.createDatabase name) = (s, .err "dbExists") := by
+  simp [exec, h]
+
+/-- **C17.create_new**: a successful CREATE DATABASE adds exactly one database under the canonical name -
+with an empty log - and leaves the selection and every existing database alone. -/
+theorem C17_create_new (s s' : Sess) (name : Bytes) (h : exec s (.createDatabase name) = (s', .ok)) :
+    getDB s (canon name) = none ∧ names s' = names s ++ [canon name] ∧ s'.cur = s.cur ∧
+    (∃ db, getDB s' (canon name) = some db ∧ db.wal = []) ∧
+    ∀ m, m ≠ canon name → getDB s' m = getDB s m := by
+  unfold exec at h
+  simp only at h
+  split at h
+  · simp at h
+  · rename_i hnone
+    have hn : getDB s (canon name) = none := by
+      cases hg : getDB s (canon name) with
+      | none => rfl
+      | some _ => simp [hg] at hnone
+    split at h
+    · rename_i st hcd
+      simp only [Prod.mk.injEq, and_true] at h
+      subst h
+      refine ⟨hn, ?_, rfl, ⟨{ store := reopen st, wal := [] }, by rw [getDB_setDB]; simp, rfl⟩, ?_⟩
+      · rw [names_setDB, hn]; rfl
+      · intro m hm
+        rw [getDB_setDB]
+        have : (m == canon name) = false := by
+          cases hb : (m == canon name) with
+          | false => rfl
+          | true => rw [beq_iff_eq] at hb; exact absurd hb hm
+        simp [this]
+    · simp at h
+
+/-- **C17.use_missing**: selecting a database that does not exist is an error that changes nothing - in
+particular the previously selected database stays selected and open. -/
+theorem C17_use_missing (s : Sess) (name : Bytes) (h : getDB s (canon name) = none) :
+    exec s (.use name) = (s, .err "dbNotExist") := by
+  simp [exec, h]
+
+/-- **C17.use_current**: re-selecting the selected database changes nothing at all. -/
+theorem C17_use_current (s : Sess) (name : Bytes) (h : (getDB s (canon name)).isSome = true)
+    (hc : s.cur = some (canon name)) : exec s (.use name) = (s, .ok) := by
+  have hn : (getDB s (canon name)).isNone = false := by
+    cases hg : getDB s (canon name) <;> simp_all
+  cases s with
+  | mk dbs cur =>
+    simp only at hc
+    subst hc
+    simp [exec, hn]
+
+/-- **C17.use_other**: selecting another existing database succeeds, selects it, keeps the set of
+databases, and leaves every database other than the previously selected one (which is closed, i.e.
+flushed) exactly as it was. -/
+theorem C17_use_other (s : Sess) (name : Bytes) (h : (getDB s (canon name)).isSome = true) :
+    (exec s (.use name)).2 = .ok ∧ (exec s (.use name)).1.cur = some (canon name) ∧
+    names (exec s (.use name)).1 = names s ∧
+    ∀ m, s.cur ≠ some m → getDB (exec s (.use name)).1 m = getDB s m := by
+  have hn : (getDB s (canon name)).isNone = false := by
+    cases hg : getDB s (canon name) <;> simp_all
+  unfold exec
+  simp only [hn, Bool.false_eq_true, if_false]
+  refine ⟨by trivial, by trivial, ?_, ?_⟩
+  · show names _ = names s
+    split
+    · rename_i c hc
+      split
+      · rfl
+      · split
+        · rename_i db hg
+          split
+          · show names (setDB s c _) = names s
+            rw [names_setDB, hg]; rfl
+          · rfl
+        · rfl
+    · rfl
+  · intro m hm
+    show getDB _ m = getDB s m
+    split
+    · rename_i c hc
+      split
+      · rfl
+      · split
+        · rename_i db hg
+          split
+          · show getDB (setDB s c _) m = getDB s m
+            rw [getDB_setDB]
+            have : (m == c) = false := by
+              cases hb : (m == c) with
+              | false => rfl
+              | true => rw [beq_iff_eq] at hb; subst hb; exact absurd hc hm
+            simp [this]
+          · rfl
+        · rfl
+    · rfl
+
+/-- a session history and its outputs -/
+def runOuts (s : Sess) : List Stmt → Sess × List Out
+  | [] => (s, [])
+  | st :: rest =>
+    let r := exec s st
+    let rr := runOuts r.1 rest
+    (rr.1, r.2 :: rr.2)
+
+/-- the canonical names of the CREATE DATABASE statements that returned ok, in order -/
+def created : List Stmt → List Out → List String
+  | .createDatabase n :: sts, .ok :: outs => canon n :: created sts outs
+  | _ :: sts, _ :: outs => created sts outs
+  | _, _ => []
+
+theorem exec_create_fst (s : Sess) (n : Bytes) (h : (exec s (.createDatabase n)).2 ≠ .ok) :
+    (exec s (.createDatabase n)).1 = s := by
+  unfold exec at h ⊢
+  simp only at h ⊢
+  split
+  · rfl
+  · split
+    · rename_i hx _ _ _ hy
+      simp [hx, hy] at h
+    · rfl
+
+theorem names_exec (s : Sess) (st : Stmt) :
+    names (exec s st).1 = names s ++ created [st] [(exec s st).2] := by
+  cases st with
+  | createDatabase n =>
+    cases ho : (exec s (.createDatabase n)).2 with
+    | ok =>
+      have h : exec s (.createDatabase n) = ((exec s (.createDatabase n)).1, .ok) := by rw [← ho]
+      have := (C17_create_new s _ n h).2.1
+      simpa [created] using this
+    | err k =>
+      have : (exec s (.createDatabase n)).1 = s := exec_create_fst s n (by rw [ho]; simp)
+      simp [this, created]
+    | panic =>
+      have : (exec s (.createDatabase n)).1 = s := exec_create_fst s n (by rw [ho]; simp)
+      simp [this, created]
+    | rows l =>
+      have : (exec s (.createDatabase n)).1 = s := exec_create_fst s n (by rw [ho]; simp)
+      simp [this, created]
+  | use n =>
+    by_cases h : (getDB s (canon n)).isSome = true
+    · have := (C17_use_other s n h).2.2.1
+      cases ho : (exec s (.use n)).2 <;> simp [this, created]
+    · have hn : getDB s (canon n) = none := by
+        cases hg : getDB s (canon n) <;> simp_all
+      rw [C17_use_missing s n hn]; simp [created]
+  | showDatabases => simp [exec, created]
+  | createTable name cols =>
+    have := (C17_frame s (.createTable name cols) rfl).2.1
+    cases ho : (exec s (.createTable name cols)).2 <;> simp [this, created]
+  | insert t cols rows =>
+    have := (C17_frame s (.insert t cols rows) rfl).2.1
+    cases ho : (exec s (.insert t cols rows)).2 <;> simp [this, created]
+  | update t sets w =>
+    have := (C17_frame s (.update t sets w) rfl).2.1
+    cases ho : (exec s (.update t sets w)).2 <;> simp [this, created]
+  | delete t w =>
+    have := (C17_frame s (.delete t w) rfl).2.1
+    cases ho : (exec s (.delete t w)).2 <;> simp [this, created]
+  | select q =>
+    have := (C17_frame s (.select q) rfl).2.1
+    cases ho : (exec s (.select q)).2 <;> simp [this, created]
+
+theorem created_cons (st : Stmt) (o : Out) (sts : List Stmt) (outs : List Out) :
+    created (st :: sts) (o :: outs) = created [st] [o] ++ created sts outs := by
+  cases st <;> cases o <;> simp [created]
+
+/-- **C17.names_are_the_created_ones**: after any history the databases of the session are exactly
+those whose CREATE DATABASE returned ok, in creation order. -/
+theorem C17_names_are_the_created_ones (s : Sess) (sts : List Stmt) :
+    names (runOuts s sts).1 = names s ++ created sts (runOuts s sts).2 := by
+  induction sts generalizing s with
+  | nil => simp [runOuts, created]
+  | cons st rest ih =>
+    simp only [runOuts]
+    rw [ih, names_exec, created_cons st (exec s st).2 rest, List.append_assoc]
+
+theorem insertSortedStr_perm (k : String) (l : List String) : (insertSortedStr k l).Perm (k :: l) := by
+  induction l with
+  | nil => exact List.Perm.refl _
+  | cons x xs ih =>
+    simp only [insertSortedStr]
+    split
+    · exact List.Perm.refl _
+    · exact (List.Perm.cons x ih).trans (List.Perm.swap k x xs)
+
+theorem sortedNames_perm_aux (l : List (String × DB)) (acc : List String) :
+    (l.foldl (fun acc p => insertSortedStr p.1 acc) acc).Perm (acc ++ l.map (·.1)) := by
+  induction l generalizing acc with
+  | nil => simp
+  | cons p rest ih =>
+    simp only [List.foldl_cons, List.map_cons]
+    refine (ih _).trans ?_
+    refine ((insertSortedStr_perm p.1 acc).append_right _).trans ?_
+    simpa using (List.perm_middle (a := p.1) (l₁ := acc) (l₂ := rest.map (·.1))).symm
+
+/-- **C17.show_lists_exactly_the_databases**: SHOW DATABASES changes nothing and returns a permutation
+of the session's database names - none missing, none invented, none twice. -/
+theorem C17_show (s : Sess) :
+    exec s .showDatabases = (s, .rows (sortedNames s)) ∧ (sortedNames s).Perm (names s) := by
+  refine ⟨rfl, ?_⟩
+  have := sortedNames_perm_aux s.dbs []
+  simpa [sortedNames, names] using this
+
+/-- non-vacuity: a session with two databases, one selected; the hypotheses of the theorems above are met -/
+example : let s : Sess := { dbs := [("a", {}), ("b", {})], cur := some "a" }
+    (getDB s "b").isSome = true ∧ s.cur ≠ some "b" ∧ routed (.delete [] none) = true := by
+  refine ⟨by decide, by decide, rfl⟩
+
 end Mkdb.Session
